@@ -54,9 +54,12 @@ theorem refused_connect_balanced (c : Cfg) (ops : List Op) (i : Nat) :
     (after c (ops ++ [.tunOpen i .dead])).cells.tcp = (after c ops).cells.tcp := by
   sorry
 
-/-- a connect that never completes holds its guard exactly until the establishment timeout -/
+/-- a connect that never completes holds its guard exactly until the establishment timeout
+(`hn`: the session can still take a tunnel - an HTTP/1.1 connection carries only one) -/
 theorem hanging_connect_released_by_timeout (c : Cfg) (ops : List Op) (i ms : Nat)
-    (ha : aliveS (after c ops) i = true) (he : c.establish ≤ ms) :
+    (ha : aliveS (after c ops) i = true)
+    (hn : ¬ (protoOf (after c ops) i = .h1 ∧ (after c ops).tuns.any (·.sess = i) = true))
+    (he : c.establish ≤ ms) :
     (after c (ops ++ [.tunOpen i .hang])).cells.tcp = (after c ops).cells.tcp + 1 ∧
     (after c (ops ++ [.tunOpen i .hang, .adv ms])).cells.tcp ≤ (after c ops).cells.tcp := by
   sorry
